@@ -37,7 +37,9 @@ SPEC = dict(
              'first; load_uint(0) raises). c08_src_history: ONE theorem over the whole regenerated alphabet - any interleaving of the eleven copy / '
              'derive methods, store_ref, load_ref, the bit-moving loads / stores (any receivers, any arguments) and the remaining hand-model '
              'transitions keeps Sep / WF / Coh and leaves every cell exactly as it was. (Builder.store_builder does not exist in the library.) '
-             'Still hand model + sampled correspondence: Cell(bits, refs) keeping the caller\'s containers and padding a copy (cellCtor), the cells of '
+             'Cell(bits, refs): c08_src_ctor_step_partial - Cell.get_data_bytes, the only helper of __init__ that touches a bit array, is regenerated and proved to pad a COPY '
+             '(every existing container, list and object untouched); that __init__ stores the two pointers it is given is a check of the source text. '
+             'Still hand model + sampled correspondence: the rest of Cell.__init__ (cellCtor as a whole), the cells of '
              'Boc.deserialize, hash / to_boc, the other typed loads / stores (store_int / store_bytes / store_coins, load_int / load_bytes ... : same '
              'containers, other encodings), composite parsers.',
         level_note='For the eleven copy / derive methods: the translator harness/translate/pyheap.py with the declared interface of heapsrc.py '
@@ -1637,6 +1639,9 @@ SRC_BITS_HISTS = {
     'skip_bits': [['dv:1:begin_parse', 'sk:5:1', 'sk:5:2', 'sk:5:5', 'ob:1:hash', 'dv:5:to_cell'], ['dv:0:begin_parse', 'sk:5:3', 'sk:5:1']],
     'load_uint': [['dv:1:begin_parse', 'lu:5:2', 'lu:5:1', 'lu:5:5', 'ob:1:hash', 'dv:5:to_cell'], ['dv:0:begin_parse', 'lu:5:3', 'lu:5:1']],
     'preload_uint': [['dv:1:begin_parse', 'lu:5:2', 'lu:5:1', 'ob:1:hash', 'dv:5:to_cell']],
+    # Cell.get_data_bytes (the constructor's helper): cells built from the caller's own plain / Tvm arrays, then observed
+    'get_data_bytes': [['nb:10110:p', 'nr:-', 'ct:5:6:-1', 'ob:7:hash'], ['nb:1:t', 'nr:0', 'ct:5:6:-1', 'ct:5:6:-1', 'ob:7:hash', 'dv:7:begin_parse'],
+                       ['nb:10110101:p', 'nr:-', 'ct:5:6:-1']],
 }
 
 
